@@ -571,3 +571,14 @@ Section Seek.
 End Seek.
 
 Definition rsc_open (content : str) (size : N) : rsc := mkRsc content size 0 false 0.
+
+(* What blobStore.Fetch / blobStore.FetchReference hand back when the response says
+   Accept-Ranges: bytes -- httputil.NewReadSeekCloser(client, req, resp.Body, SIZE) with SIZE
+   = target.Size resp. desc.Size of the descriptor FetchReference derived (not the
+   Content-Length of the GET, which may be unknown); otherwise the plain body. *)
+Definition seeker_of (res : result) (size_of_fetch : N) : option rsc :=
+  match res with
+  | RBytes c => Some (rsc_open c size_of_fetch)         (* Fetch(target): target.Size *)
+  | RDescBytes d c => Some (rsc_open c (d_sz d))        (* FetchReference: desc.Size *)
+  | _ => None
+  end.
